@@ -12,7 +12,8 @@ CLAIMS = {
  "C10": ("proof", "7.10", "Coq: free-list invariant FL of TaskListT preserved by emplace/remove/clear over operation lists of any length for every capacity 1..255; emplace succeeds iff "
          "count < capacity, returns a vacant slot, leaves occupied slots untouched; no leak (from any reachable state the remaining capacity is available). Correspondence: real "
          "TaskListT and real machines' plan() vs the extracted model; abstract allocator/list oracle over implementation results. Source tie by proof (DESIGN.md 4.7): TaskListT<void,N>::emplace/remove/clear "
-         "are translated from clang's typed AST of the current source on every run (tools/leafcode.py) and proved to stay inside the array and to equal the model on every list satisfying FL (Proofs/LeafCodeTaskList.v).",
+         "are translated from clang's typed AST of the current source on every run (tools/leafcode.py) and proved to stay inside the array and to equal the model on every list satisfying FL (Proofs/LeafCodeTaskList.v); PlanT::append/remove/linkTask/operator bool, with the member functions they call inlined, "
+         "are translated the same way and proved equal to plan_append/plan_remove on every plan data satisfying the plan invariant, and over whole append/remove histories (Proofs/LeafCodePlan*.v).",
          "Coq proof (invariant by induction over operation lists) + model/implementation correspondence"),
  "C13": ("proof", "7.13", "Coq: bit-level write/read specifications of the per-byte chunk loops, round trip for any field sequence that fits, contiguity, locality, zeros past the cursor, "
          "bitWidth exact for all 32-bit arguments, width suffices for every state count. Correspondence: real BitWriteStreamT/BitReadStreamT/bitWidth vs the extracted model on every "
@@ -25,7 +26,7 @@ CLAIMS = {
          "each, for every k. Correspondence: real machines with 0..3 injected bases on states and root vs the extracted model; order monitor over implementation traces.",
          "Coq proof (induction on the number of injections) + model/implementation correspondence"),
  "C20": ("proof", "7.20", "Coq: BitArrayT get/set/clear/set-all/clear-all/and-assign laws, empty() iff no member under the padding invariant, invariant preserved by every operation, for every "
-         "capacity; StaticArrayT/DynamicArrayT laws incl. iteration order with the uint8_t cursor. Correspondence: the real containers vs the extracted model; abstract set/list oracle. Source tie by proof (DESIGN.md 4.7): every BitArrayT member (get/set/clear, set(), clear(), empty(), operator&, operator&=, UNIT_COUNT) for both index classes (N <= 255, N <= 65535) is translated from clang's typed AST of the current source on every run (tools/leafcode.py) and proved equal to the model for every capacity, content and index (Proofs/LeafConsts.v, LeafCodeProofs.v, LeafCodeArrays.v).",
+         "capacity; StaticArrayT/DynamicArrayT laws incl. iteration order with the uint8_t cursor. Correspondence: the real containers vs the extracted model; abstract set/list oracle. Source tie by proof (DESIGN.md 4.7): every BitArrayT member (get/set/clear, set(), clear(), empty(), operator&, operator&=, UNIT_COUNT) for both index classes (N <= 255, N <= 65535) is translated from clang's typed AST of the current source on every run (tools/leafcode.py) and proved equal to the model for every capacity, content and index (Proofs/LeafConsts.v, LeafCodeProofs.v, LeafCodeArrays.v); StaticArrayT<uint8_t,N>::fill/clear/empty likewise (filler 255; Proofs/LeafCodeStatic.v).",
          "Coq proof (byte-level lemmas, induction; translated source of BitArrayT proved equal to the model) + model/implementation correspondence"),
 }
 
